@@ -411,6 +411,11 @@ def run_spec(args):
     # it at 'ignore' until the next solve; cases must not depend on which case ran before them in the worker)
     np.seterr(all="raise")
     rng = random.Random(spec.get("seed", 0))
+    if spec.get("dynamic"):
+        try:
+            return case, dynamic_events(case, spec, rng)
+        except PreStepRaised as exc:
+            return case, [{"case": case, "ev": "Skip", "reason": str(exc)[:300]}]
     t = make_tissue(spec, rng)
     sim = make_similarity(spec, rng)
     if spec.get("require_conditioned"):
@@ -472,3 +477,133 @@ def run_specs(ctx, specs, module="Trace_Inference", prefixes=None):
                 vj["kf"] = [c for c in vj["kf"] if any(c.split(":")[1].startswith(p) for p in prefixes)]
                 vj["hits"] = [c for c in vj.get("hits", []) if any(c.startswith(p) for p in prefixes)]
     return verdicts, payloads
+
+
+# ------------------------------------------------------------------------------------------------
+# dynamic series (C03; also C05 with a velocity right-hand side)
+# ------------------------------------------------------------------------------------------------
+def junction_velocities(t):
+    """resultant of the interface tensions pulling on each junction-level vertex (model frame, complex)"""
+    v = {a: 0j for a in t["pos"]}
+    for (a, b), rec in t["edges"].items():
+        v[a] += rec["T"] * rec["ta"]
+        v[b] += rec["T"] * rec["tb"]
+    return v
+
+
+def straightened(t, newpos):
+    edges = {}
+    for e, rec in t["edges"].items():
+        d = newpos[e[1]] - newpos[e[0]]
+        d = d / abs(d)
+        edges[e] = dict(rec, ta=d, tb=-d, centre=None, R=float("inf"), theta=0.0)
+    return dict(t, pos=newpos, edges=edges)
+
+
+def dynamic_events(case, spec, rng):
+    import forsys as fs
+    sim = make_similarity(spec, rng)
+    for _ in range(12):
+        t = make_tissue(spec, rng)
+        # arbitrary positive tensions of mean one over the inferred interfaces
+        for r in t["edges"].values():
+            r["T"] = rng.uniform(0.4, 1.8)
+        normalise_tensions(t)
+        if tension_tolerance(t, sim) is not None or spec["tissue"]["kind"] != "equilibrium":
+            break
+    k = spec.get("k", 3)
+    nframes = spec.get("nframes", 3)
+    tau = spec.get("when", 0)
+    internal, junctions = truth_structure(t)
+    vel = junction_velocities(t)
+    used = set(junctions)
+    vmax = max([abs(vel[j]) for j in used] + [1e-9])
+    spacing = min(abs(t["pos"][a] - t["pos"][b]) for (a, b) in t["edges"])
+    extent = max(abs(z1 - z2) for z1 in t["pos"].values() for z2 in t["pos"].values())
+    step = spec.get("step_frac", 0.15) * min(spacing, 0.08 * extent * 4)      # model-frame displacement of the fastest junction
+    # physical: positions scale with sim.scale, velocities are forces (unit mobility): displacement = dt * v
+    dt_tau = step * sim.scale / vmax
+    partner = tau + 1 if tau < nframes - 1 else tau - 1
+    stamps = [0.0]
+    for f in range(1, nframes):
+        gap_is_inferred = {f - 1, f} == {tau, partner}
+        stamps.append(stamps[-1] + dt_tau * (rng.choice([1.0, 0.3, 0.6]) if gap_is_inferred else rng.choice([1.0, 0.3, 3.0, 12.0])))
+    dt = abs(stamps[partner] - stamps[tau]) if partner != tau else dt_tau
+    # make the stamp difference between tau and its partner exactly the dt used for the displacement
+    disp_model = {a: (vel[a] * (dt / sim.scale) if a in used else 0j) for a in t["pos"]}
+    frames_t = {}
+    for f in range(nframes):
+        if f == tau:
+            frames_t[f] = t
+        elif f == partner:
+            sign = 1.0 if partner > tau else -1.0
+            newpos = {a: z + sign * disp_model[a] for a, z in t["pos"].items()}
+            frames_t[f] = straightened(t, newpos)
+        else:
+            jit = 0.03 * spacing
+            newpos = {a: z + complex(rng.uniform(-jit, jit), rng.uniform(-jit, jit)) for a, z in t["pos"].items()}
+            frames_t[f] = straightened(t, newpos)
+    frames, objs = {}, {}
+    for f in range(nframes):
+        ids = {"offset": rng.choice([0, 5, 40]), "stride": rng.choice([1, 2, 3]), "shuffle": random.Random(rng.randrange(10 ** 9))}
+        o = make_case_objects(frames_t[f], k, sim, rng, ids=ids)
+        objs[f] = o
+        frames[f] = fs.frames.Frame(f, o["vertices"], o["edges"], o["cells"], time=stamps[f])
+    evs = []
+    o = objs[tau]
+    frame = frames[tau]
+    m, vidx, eidx, cidx = project.project_mesh(o["vertices"], o["edges"], o["cells"])
+    evs.append({"case": case, "ev": "Mesh", "mesh": m, "raised": "", "src": "dynamic"})
+    evs.append({"case": case, "ev": "Frame", "f": project.project_frame(frame, vidx, eidx, cidx, lookups=False), "raised": ""})
+    cell_of_model = {ci: cidx.get(c[0], 0) for ci, c in enumerate(o["desc"]["C"])}
+    tol_static = tension_tolerance(t, sim)
+    tolD = None
+    if tol_static is not None:
+        with np.errstate(all="ignore"):
+            M, _, J = true_system(t, sim)
+            P = np.linalg.pinv(M)
+            pn = float(np.sqrt((P[:-1] ** 2).sum(axis=1)).max())
+        tolD = tol_static + 3.0 * pn * 5e-4 * math.sqrt(2 * len(J))
+        if tolD > 0.15:
+            tolD = None
+    extent_e = extent * sim.scale
+    extra = {"equilibrium": False, "tolT": 0, "dynamic": tolD is not None, "tolD": fx(tolD) if tolD else 0,
+             "offset_sizes": int(min(math.hypot(sim.tx, sim.ty) / extent_e, 10 ** 6)),
+             "nframes": nframes, "when": tau}
+    evs.append(env_event(case, t, k, sim, o["info"], vidx, cell_of_model, spec["want"], extra, frame=frame))
+    forsys = fs.ForSys(frames, cm=False)
+    fit = spec.get("build", {}).get("fit", "dlite")
+    bev = {"case": case, "ev": "BuildForce", "raised": "", "opts": {"limit": "inf", "cos": -3 * project.QS, "fit": fit, "ignore_four": False}}
+    try:
+        forsys.build_force_matrix(when=tau, angle_limit=float("inf"), circle_fit_method=fit)
+        fmx = forsys.force_matrices[tau]
+        bev["fm"] = project_force_matrix(fmx, vidx, frame)
+        bev["vs"] = []
+        b_un, _ = fmx.set_velocity_matrix(forsys.mesh, b_matrix="velocity")
+        b3 = np.asarray(b_un, dtype=float).flatten().round(3)
+    except Exception as exc:
+        import traceback
+        bev["raised"] = type(exc).__name__ + ": " + traceback.format_exc()[-300:]
+        evs.append(bev)
+        return evs
+    evs.append(bev)
+    method = spec.get("solve", {}).get("method", "default")
+    kwargs = {"b_matrix": "velocity"}
+    if method != "default":
+        kwargs["method"] = method
+    sev = {"case": case, "ev": "SolveStress", "raised": "",
+           "opts": {"method": method, "allow_neg": True, "bmode": "velocity"}}
+    try:
+        forsys.solve_stress(when=tau, **kwargs)
+        x = forsys.forces[tau]
+        xs = [float(x[i]) for i in range(len(x))]
+        finite = all(math.isfinite(v) and abs(v) < 1900 for v in xs) and bool(np.all(np.abs(b3) < 1900))
+        sev["finite"] = finite
+        sev["x"] = [fx(v) if finite else 0 for v in xs]
+        sev["b"] = [[fx(b3[r["r"]]), fx(b3[r["r"] + 1])] if finite else [0, 0] for r in bev["fm"]["rows"]]
+        sev["warned"] = False
+    except Exception as exc:
+        import traceback
+        sev["raised"] = type(exc).__name__ + ": " + traceback.format_exc()[-300:]
+    evs.append(sev)
+    return evs
